@@ -593,21 +593,24 @@ def _norm_cell(x):
 
 
 def frame_snapshot(df) -> dict:
-    return {
+    snap = {
         "columns": list(df.columns),
         "dtypes": [str(d) for d in df.dtypes],
         "data": {k: [_norm_cell(x) for x in v] for k, v in df.to_dict(as_series=False).items()},
+        "shape": list(df.shape),
     }
+    try:
+        snap["flags"] = {k: dict(v) for k, v in df.flags.items()}  # per-column sortedness flags
+    except Exception:  # noqa: BLE001
+        snap["flags"] = None
+    extra = sorted(k for k in vars(df) if k not in ("_df",)) if hasattr(df, "__dict__") else []
+    snap["extra_attributes"] = extra  # anything attached to the caller's object
+    return snap
 
 
 def expected_frame_snapshot(spec: dict) -> dict:
-    return {
-        "columns": [c[0] for c in spec["cols"]],
-        "dtypes": [{"str": "String", "int": "Int64", "float": "Float64", "bool": "Boolean", "date": "Date"}[c[1]]
-                   for c in spec["cols"]],
-        "data": {c[0]: [_norm_cell(float(x)) if c[1] == "float" and x is not None else _norm_cell(x) for x in c[2]]
-                 for c in spec["cols"]},
-    }
+    """What the caller's frame looks like when nobody has touched it: a snapshot of a freshly built twin."""
+    return frame_snapshot(build_frame(spec))
 
 
 _IMG_BASE: dict = {}
